@@ -905,6 +905,21 @@ func (n *TxNotifier) UpdateConfDetails(confRequest ConfRequest,
 	// Cache the details found in the rescan and attempt to dispatch any
 	// notifications that have not yet been delivered.
 	confSet.details = details
+
+	// Track the height the request confirmed at even if no client is
+	// currently registered for it (they may all have been canceled while
+	// the rescan was in flight). Otherwise a reorg of that block would not
+	// clear the cached details and a later registration would be notified
+	// with details of a block that is no longer part of the chain.
+	if details.BlockHeight+n.reorgSafetyLimit > n.currentHeight {
+		txSet, exists := n.confsByInitialHeight[details.BlockHeight]
+		if !exists {
+			txSet = make(map[ConfRequest]struct{})
+			n.confsByInitialHeight[details.BlockHeight] = txSet
+		}
+		txSet[confRequest] = struct{}{}
+	}
+
 	for _, ntfn := range confSet.ntfns {
 		// The default notification we assigned above includes the
 		// block along with the rest of the details. However not all
@@ -1374,6 +1389,20 @@ func (n *TxNotifier) updateSpendDetails(spendRequest SpendRequest,
 		"request %v", details.SpendingHeight, spendRequest)
 
 	spendSet.details = details
+
+	// Track the spending height even if no client is currently registered
+	// for the request, so that a reorg of the spending block clears the
+	// cached details.
+	spendHeight := uint32(details.SpendingHeight)
+	if spendHeight+n.reorgSafetyLimit > n.currentHeight {
+		opSet, exists := n.spendsByHeight[spendHeight]
+		if !exists {
+			opSet = make(map[SpendRequest]struct{})
+			n.spendsByHeight[spendHeight] = opSet
+		}
+		opSet[spendRequest] = struct{}{}
+	}
+
 	for _, ntfn := range spendSet.ntfns {
 		err := n.dispatchSpendDetails(ntfn, spendSet.details)
 		if err != nil {
